@@ -12,7 +12,16 @@ namespace OnosVerif.Props.C03
 open OnosVerif.Config
 open OnosVerif.Path (Str)
 
-/-! ## The part that holds -/
+/-! ## The part that holds
+
+The full statement of C03 for the value path would be
+
+    ∀ steps, indexed 0 steps → (∀ t ∈ steps, IsPerm t.ordU) → (∀ t ∈ steps, nodupPaths t.change) →
+      live (runTwin [] steps) = Spec.view (Spec.run [] (steps.map (·.change)))
+
+(and the same with rollbacks among the steps).  It is false of the twin and of the code: see the
+negation witnesses below.  What is proved is the statement for `Clean` histories.
+-/
 
 /-- **Main theorem.**  For every *clean* history (`Clean`, a decidable predicate on the list of
     change maps: conditions (a)–(d) of the Go `CleanHistory` plus (e), no used path beneath a
@@ -52,6 +61,13 @@ theorem C03_order_independent_partial (D U W : List Str) (lo idx : Nat) (side ch
     (hst : ∀ c ∈ ch, c.index = idx) (hp : ch'.Perm ch) (h1 : IsPerm o1) (h2 : IsPerm o2) :
     live (commitValues idx side ch o1) = live (commitValues idx side ch' o2) :=
   commit_order_independent D U W lo idx side ch ch' o1 o2 hinv (cleanStep_spec D U W ch hcl) hlo hst hp h1 h2
+
+/-- The reference semantics itself does not depend on the order in which a request lists its
+    values (so "independent of incidental ordering" is a statement about the code only). -/
+theorem C03_spec_order_independent (st : Spec.State) (ch ch' : VMap) (hp : ch'.Perm ch)
+    (hn : nodupPaths ch = true) (hk : Spec.NodupK st) :
+    Spec.view (Spec.apply st ch') = Spec.view (Spec.apply st ch) :=
+  spec_apply_perm st ch ch' hp (nodupPaths_spec ch hn) hk
 
 /-- An update sets that leaf: after a clean commit the updated path reads exactly the new value.
     (Proved from an `Inv` state for a clean request; the unconditional version — only "not below a
